@@ -10,7 +10,11 @@ QUICK_SCALE = 10      # the quick tier was enlarged by this factor after MIN_OBS
 RULE = (
     "One case = one simulated world: scripted server, the real client 'me' logged in, 3-4 scripted peers, one "
     "sequence of <= 10 abstract events, each applied by one harness function: potential_parents(subset) pushed by "
-    "the server (the client dials those peers, type D), incoming_d(peer), announce(peer, level, root, order in "
+    "the server (the client dials those peers, type D), incoming_d(peer; in 18 % of the seeded ones the peer vanishes: "
+    "it resets (75 %) or closes its connection 0-3 loop steps / 0.5-3 ms after the last byte of its PeerInit, the "
+    "init frame in one segment or split after 4/5/9 bytes, on a connection with whole segments and one fixed "
+    "latency equal to the RST latency, so that the reset can reach the client at the very instant the init frame "
+    "completes), announce(peer, level, root, order in "
     "level-first/root-first/level-only/root-only; level 0 <=> root = sender; on every live D link of the peer), "
     "disconnect(peer, close|abort), connect_fail(peer, refuse|hang|slow(2-4.5 s): next direct connect of the client "
     "to it), potential_parents with 8-13 additional unreachable names ('ghosts': nobody listens, unknown to the "
@@ -25,8 +29,8 @@ RULE = (
     "limits(ParentMinSpeed+ParentSpeedRatio, own speed answered to GetUserStats: documented child limit 0/1/3/11, "
     "acceptance off/on), reset (ResetDistributed), session_loss (server RST; optionally 1-2 peer events applied "
     "while the client has no session; then connect_server + login by the harness, reconnect.auto is off). Per case: "
-    "connect mode race|fallback, per peer reaction to a relayed ConnectToPeer (pierce|cannot|ignore). First 106 "
-    "cases: 53 hand-written sequences of length 1-8 (x both connect modes) so that the lowest-numbered witness is a "
+    "connect mode race|fallback, per peer reaction to a relayed ConnectToPeer (pierce|cannot|ignore). First 118 "
+    "cases: 59 hand-written sequences of length 1-8 (x both connect modes) so that the lowest-numbered witness is a "
     "short one; then seeded sequences whose length is non-decreasing in the case number (2..10). Even cases "
     "separate events by 0.5 virtual s of quiescence (history quantifier); odd cases fire bursts of 2-4 events with "
     "gaps of 0-3 loop yields / 1-8 ms, every remote party applying its own events in order (schedule quantifier), "
@@ -68,7 +72,8 @@ ASSUMPTIONS = [
 ]
 MIN_OBS = {
     'quick': {'sequences': 410, 'events_applied': 2000, 'quiescence_checks': 1500, 'add_child_observed': 200,
-              'position_checks': 2000, 'parents_set': 150, 'stalls_with_suspended_writes': 30},
+              'position_checks': 2000, 'parents_set': 150, 'stalls_with_suspended_writes': 30,
+              'in_events_with_vanishing_peer': 30},
     'thorough': {'sequences': 14500, 'events_applied': 70000, 'quiescence_checks': 55000, 'add_child_observed': 7000,
                  'position_checks': 70000, 'parents_set': 6000, 'stalls_with_suspended_writes': 1500},
 }
